@@ -8,6 +8,7 @@ import (
 	"sync"
 
 	"verifharness/gen"
+	"verifharness/probe"
 	"verifharness/spec"
 )
 
@@ -175,4 +176,101 @@ func FindCollisionPairs(r *gen.Rand, v *spec.Version, n, capPer int) []Collision
 		keys[k] = nil
 	}
 	return out
+}
+
+// ObjCollisionPair is a pair of assignments whose PACKED representations (the struct's bytes as %v shows them) have the
+// same value under one of hashFns: what a score / Vector() memo keyed on a 32-bit hash of the object confuses.
+type ObjCollisionPair struct {
+	A, B spec.Assign
+	How  string
+}
+
+// FindObjCollisionPairs builds n objects through ParseVector (a mixture of fully defined and sparse assignments),
+// hashes their packed bytes and returns at most capPer colliding pairs per hash function.
+func FindObjCollisionPairs(r *gen.Rand, api *probe.API, n, capPer int) []ObjCollisionPair {
+	if n > 1<<24 {
+		n = 1 << 24
+	}
+	v := api.Ver
+	seed := r.U64()
+	mk := func(i int, a spec.Assign) {
+		fullAssign(v, seed, i, a)
+		if i&1 == 1 { // sparse half: every optional metric kept with probability 1/2
+			x := seed ^ uint64(i)*0xd6e8feb86659fd93
+			for m, me := range v.Metrics {
+				if !me.Mandatory {
+					x = x*6364136223846793005 + 1442695040888963407
+					if x>>63 == 1 {
+						a[m] = 0
+					}
+				}
+			}
+		}
+	}
+	keys := make([][]uint64, len(hashFns))
+	for k := range keys {
+		keys[k] = make([]uint64, n)
+	}
+	nw := runtime.GOMAXPROCS(0)
+	var wg sync.WaitGroup
+	for w := 0; w < nw; w++ {
+		wg.Add(1)
+		go func(w int) {
+			defer wg.Done()
+			a := v.ZeroAssign()
+			var b []byte
+			for i := w; i < n; i += nw {
+				mk(i, a)
+				o, err := api.Parse(v.Canonical(a))
+				if err != nil || o == nil {
+					continue // reported by the checks themselves
+				}
+				b = b[:0]
+				for _, x := range packedKey(o) {
+					b = append(b, byte(x))
+				}
+				for hi, h := range hashFns {
+					keys[hi][i] = uint64(h.f(b))<<24 | uint64(i)
+				}
+			}
+		}(w)
+	}
+	wg.Wait()
+	var out []ObjCollisionPair
+	for k := range keys {
+		ks := keys[k]
+		slices.Sort(ks)
+		got := 0
+		for j := 1; j < len(ks) && got < capPer; j++ {
+			if ks[j]>>24 != ks[j-1]>>24 || ks[j] == 0 || ks[j-1] == 0 {
+				continue
+			}
+			a, b := v.ZeroAssign(), v.ZeroAssign()
+			mk(int(ks[j-1]&0xffffff), a)
+			mk(int(ks[j]&0xffffff), b)
+			if v.Canonical(a) == v.Canonical(b) {
+				continue
+			}
+			out = append(out, ObjCollisionPair{a, b, hashFns[k].name})
+			got++
+		}
+		keys[k] = nil
+	}
+	return out
+}
+
+// objCollisionPairs runs f on A, B, A, B ... of every pair, on one worker, and counts what was found.
+func objCollisionPairs(c *Ctx, api *probe.API, f func(w *Worker, a spec.Assign, i int)) {
+	pairs := FindObjCollisionPairs(c.Rand("object-collision-pairs", api.Ver.Name), api, c.Pick(1<<20, 1<<22), c.Pick(32, 256))
+	c.Floor("object hash-collision pairs v"+api.Ver.Name, int64(len(pairs)), 40)
+	c.mu.Lock()
+	c.Counts["object-collision-pairs-v"+api.Ver.Name] += int64(len(pairs))
+	c.mu.Unlock()
+	c.Parallel("object-collision-pairs-"+api.Ver.Name, len(pairs), 1, func(w *Worker, i int) {
+		for rep := 0; rep < 2; rep++ {
+			f(w, pairs[i].A, 2*i)
+			f(w, pairs[i].B, 2*i+1)
+		}
+		w.Count("object-collision-pair:" + pairs[i].How)
+	})
 }
